@@ -69,7 +69,7 @@ Aa55Req(body) == LET f == <<170, 85, 192, 127>> \o body
 Aa55Read(reg, count)   == Aa55Req(<<1, 26, 3, Hi(reg), Lo(reg), count>>)
 Aa55Write(reg, val)    == Aa55Req(<<2, 57, 5, Hi(reg), Lo(reg), 1, Hi(val), Lo(val)>>)
 Aa55WriteMulti(reg, payload) ==
-    Aa55Req(<<2, 57, 11, Hi(reg), Lo(reg), Len(payload)>> \o payload)
+    Aa55Req(<<2, 57, 3 + Len(payload), Hi(reg), Lo(reg), Len(payload)>> \o payload)
 
 (***************************************************************************)
 (* Requests: an independent decoder (field by field from the documented    *)
@@ -123,7 +123,7 @@ ParseAa55(b) ==
       ELSE IF ctl = 2 /\ fn = 57 /\ Len(pl) = 5 /\ pl[3] = 1
       THEN [ok |-> TRUE, op |-> "write", addr |-> 127, reg |-> BE16(pl[1], pl[2]),
             n |-> BE16(pl[4], pl[5]), payload |-> <<>>, tx |-> 0]
-      ELSE IF ctl = 2 /\ fn = 57 /\ Len(pl) >= 3 /\ pl[3] = Len(pl) - 3 /\ Len(pl) # 5
+      ELSE IF ctl = 2 /\ fn = 57 /\ Len(pl) >= 3 /\ pl[3] = Len(pl) - 3
       THEN [ok |-> TRUE, op |-> "wmulti", addr |-> 127, reg |-> BE16(pl[1], pl[2]),
             n |-> (Len(pl) - 3) \div 2, payload |-> Sub(pl, 4, Len(pl)), tx |-> 0]
       ELSE [ok |-> TRUE, op |-> "raw", addr |-> 127, reg |-> BE16(ctl, fn), n |-> Len(pl),
@@ -199,7 +199,7 @@ WellFormed(cmd, d) ==
            /\ Len(d) >= 9
            /\ Len(d) = d[7] + 9
            /\ (cmd.rt >= 0 => BE16(d[5], d[6]) = cmd.rt)
-           /\ SumAll(Sub(d, 1, Len(d) - 2)) = BE16(d[Len(d) - 1], d[Len(d)])
+           /\ Sum16(Sub(d, 1, Len(d) - 2)) = BE16(d[Len(d) - 1], d[Len(d)])     \* 16 bit additive checksum
 
 \* C08: a Modbus exception frame answering this command (function | 0x80, valid checksum)
 IsException(cmd, d) ==
